@@ -1,9 +1,14 @@
 """C13 — the report's in-browser classification equals the command-line classification.
 
 Decided by: Lean theorems `categorize_eq`, `excluded_eq`, `cashflow_eq`, `is_*_eq` over the two
-GENERATED models (Gen/ClassPy.lean, Gen/ClassJs.lean), for every NumLike and tag list.
+GENERATED models (Gen/ClassPy.lean, Gen/ClassJs.lean), for every NumLike and tag list, with one shared
+lower-casing function; and `*_eq_of_specialAgree` with the two languages' lower-casing functions kept
+APART, under the decidable hypothesis `specialAgree` (they agree about which tags become a special word).
 Tie: both translators run on every call; their output is validated by executing the generated
-Lean definitions, the Python source and the JS block (node) on the same grid.
+Lean definitions (each with the recorded images of its own language's lower-casing), the Python source
+and the JS block (node) on the same grid + the Unicode look-alike stream (`lookalikes`, `unicode_stream`:
+the special words with letters replaced by every code point that a case mapping or normalisation of either
+runtime sends to that letter, or on which the two runtimes disagree; invisible characters attached).
 """
 import itertools
 import json
@@ -32,7 +37,9 @@ for (const c of cases) {
                   transfer_out: toBits(r.transferOut), spending: toBits(r.spending), credits: toBits(r.credits)},
             keys: Object.keys(r).sort(),
             excluded: isExcludedFromSpending(tags), income: isIncome(tags), transfer: isTransfer(tags),
-            investment: isInvestment(tags), cashflow: toBits(calculateCashFlow(a, b, cc))});
+            investment: isInvestment(tags), cashflow: toBits(calculateCashFlow(a, b, cc)),
+            // the harness's own call of the language's lower-casing (NOT the code under test): shipped to the Lean model
+            lowered: (tags || []).map(t => [t, t.toLowerCase()])});
 }
 process.stdout.write(JSON.stringify(out));
 '''
@@ -108,6 +115,201 @@ def grid(ctx, thorough):
     return cases
 
 
+# ---------------------------------------------------------------------------------------------
+# Unicode look-alikes of the special words.
+#
+# The property quantifies over ALL tag lists; the two programs lower-case with two different
+# library functions (str.lower / toLowerCase).  Any other normalisation on one side only (casefold,
+# upper().lower(), toLocaleLowerCase, NFKC/NFKD, accent folding, trimming) and any skew between the
+# two runtimes' Unicode tables shows on tags that are NOT a special word under one function and ARE
+# one under another.  The characters that can do that are computed, not listed: every code point is
+# pushed through the case mappings / normalisations of BOTH runtimes and kept when some image is (a
+# 1-3 letter piece of) a special word, or when the two runtimes disagree about its lower/upper case.
+
+NODE_SCAN = r"""
+const SUBS = new Set(JSON.parse(require('fs').readFileSync(0, 'utf8')));
+const MARK = /\p{M}/gu;
+const fold = s => s.replace(MARK, '').toLowerCase();
+const caseImg = [], compatImg = [], cased = [];
+for (let cp = 0x80; cp < 0x110000; cp++) {
+  if (cp >= 0xD800 && cp <= 0xDFFF) continue;
+  const c = String.fromCodePoint(cp);
+  const lo = c.toLowerCase(), up = c.toUpperCase();
+  if (lo !== c || up !== c) {
+    cased.push([cp, lo, up]);
+    const a = new Set();
+    for (const x of [lo, up, c.toLocaleLowerCase('tr'), c.toLocaleUpperCase('tr'), c.toLocaleLowerCase('lt'), up.toLowerCase(), lo.toUpperCase()]) {
+      const f = fold(x); if (SUBS.has(f)) a.add(f);
+    }
+    if (a.size) caseImg.push([cp, [...a]]);
+  }
+  const k = c.normalize('NFKD');
+  if (k !== c) {
+    const b = new Set();
+    for (const x of [k, c.normalize('NFKC')]) { const f = fold(x); if (SUBS.has(f)) b.add(f); }
+    if (b.size) compatImg.push([cp, [...b]]);
+  }
+}
+process.stdout.write(JSON.stringify({cased, caseImg, compatImg, unicode: process.versions.unicode}));
+"""
+
+# invisible / white-space / combining characters: a side that starts trimming or stripping them
+# (str.strip() and String.trim() do not even strip the same set) turns ' income' into a special tag
+INVISIBLE = [' ', '\t', '\n', '\x1c', '\x85', '\u00a0', '\u00ad', '\u180e', '\u200b', '\u200c', '\u200d', '\u2009', '\u2028',
+             '\u2060', '\u3000', '\ufeff', '\u0301', '\u0307', '\u034f', '\ufe0f']
+
+
+def special_pieces():
+    return sorted({w[i:i + n] for w in SPECIAL for n in (1, 2, 3) for i in range(len(w) - n + 1)})
+
+
+def _fold(x):
+    import unicodedata
+    return ''.join(ch for ch in x if not unicodedata.combining(ch)).lower()
+
+
+def lookalikes():
+    """{'case': {piece: [chars]}, 'compat': {piece: [chars]}, 'differ': [chars], 'unicode': (py, js)}
+
+    case   : some CASE mapping of the character (Python lower/upper/casefold/title/swapcase and round trips;
+             JavaScript toLowerCase/toUpperCase/toLocale{Lower,Upper}Case('tr'|'lt') and round trips), combining
+             marks dropped, is the piece  (ſ→s, ı→I→i, İ→i̇, ﬆ→st, K→k, …)
+    compat : its NFKC/NFKD form (either runtime), marks dropped, lower-cased/case-folded, is the piece
+             (full-width, mathematical, circled, superscript letters; accented letters)
+    differ : Python and JavaScript disagree about its lower- or upper-case form (Unicode-version skew)
+    """
+    import unicodedata as U
+    pieces = special_pieces()
+    sub = set(pieces)
+    p = subprocess.run(['node', '-e', NODE_SCAN], input=json.dumps(pieces), capture_output=True, text=True, timeout=600)
+    if p.returncode != 0:
+        raise RuntimeError('node scan failed: ' + p.stderr[-1500:])
+    js = json.loads(p.stdout)
+    js_cased = {cp: (lo, up) for cp, lo, up in js['cased']}
+    case, compat, differ = {}, {}, []
+    for cp, ims in js['caseImg']:
+        for x in ims:
+            case.setdefault(x, set()).add(chr(cp))
+    for cp, ims in js['compatImg']:
+        for x in ims:
+            compat.setdefault(x, set()).add(chr(cp))
+    for cp in range(0x80, 0x110000):
+        if 0xD800 <= cp <= 0xDFFF:
+            continue
+        c = chr(cp)
+        lo, up = c.lower(), c.upper()
+        jlo, jup = js_cased.get(cp, (c, c))
+        if lo != jlo or up != jup:
+            differ.append(c)
+        dec = U.decomposition(c)
+        if lo == c and up == c and not dec:
+            continue
+        for x in (lo, up, c.casefold(), c.title(), c.swapcase(), up.lower(), lo.upper(), up.casefold()):
+            f = _fold(x)
+            if f in sub:
+                case.setdefault(f, set()).add(c)
+        if dec:
+            for x in (U.normalize('NFKD', c), U.normalize('NFKC', c)):
+                for f in (_fold(x), _fold(x.casefold())):
+                    if f in sub:
+                        compat.setdefault(f, set()).add(c)
+    for k in list(compat):
+        compat[k] -= case.get(k, set())
+    return {'case': {k: sorted(v) for k, v in case.items()}, 'compat': {k: sorted(v) for k, v in compat.items() if v},
+            'differ': differ, 'unicode': (U.unidata_version, js.get('unicode'))}
+
+
+def _upper_ascii(s):
+    return ''.join(ch.upper() if ch.isascii() else ch for ch in s)
+
+
+def substituted(word, piece, ch):
+    """every spelling of `word` with one occurrence of `piece` replaced by `ch` (rest lower / rest UPPER)."""
+    out, start = [], 0
+    while True:
+        i = word.find(piece, start)
+        if i < 0:
+            return out
+        t = word[:i] + ch + word[i + len(piece):]
+        out += [t, _upper_ascii(t)]
+        start = i + 1
+
+
+def unicode_stream(ctx, thorough, look=None):
+    """(cases, stats): tag lists around the special words that only a Unicode-aware comparison separates."""
+    look = look or lookalikes()
+    rng = ctx.rng
+    tags = {}          # tag -> class (first class wins, in this order)
+
+    def add(t, cls):
+        tags.setdefault(t, cls)
+
+    for piece, chars in sorted(look['case'].items()):
+        for ch in chars:
+            for w in SPECIAL:
+                for t in substituted(w, piece, ch):
+                    add(t, 'case')
+    # two substitutions at once (e.g. ıNVEſTMENT) for the case class
+    for w in SPECIAL:
+        pos = [(i, ch) for i, l in enumerate(w) for ch in look['case'].get(l, [])]
+        for (i, a), (j, b) in itertools.combinations(pos, 2):
+            if i != j:
+                t = ''.join(a if k == i else b if k == j else l for k, l in enumerate(w))
+                add(t, 'case'); add(_upper_ascii(t), 'case')
+    compat = [(piece, ch) for piece, chars in sorted(look['compat'].items()) for ch in chars]
+    if not thorough:
+        compat = rng.sample(compat, min(len(compat), 160))
+    for piece, ch in compat:
+        for w in SPECIAL:
+            for t in substituted(w, piece, ch):
+                add(t, 'compat')
+    differ = list(look['differ'])
+    if not thorough:
+        differ = rng.sample(differ, min(len(differ), 24))
+    for ch in differ:
+        w = rng.choice(SPECIAL)
+        i = rng.randrange(len(w))
+        for t in (ch, w + ch, ch + w, w[:i] + ch + w[i + 1:], _upper_ascii(w[:i] + ch + w[i + 1:])):
+            add(t, 'differ')
+    for ch in INVISIBLE:
+        for w in (SPECIAL if thorough else [rng.choice(SPECIAL)]):
+            i = rng.randrange(1, len(w))
+            for t in (w + ch, ch + w, w[:i] + ch + w[i:], ch + w.upper() + ch):
+                add(t, 'invisible')
+    amounts = [-1.5, 19.99] + ([0.0, -0.0, float('nan'), 1e15] if thorough else [])
+    others = [(0.0, 0.0), (12.5, 3.25), (-7.0, 1e9)]
+    cases, stats = [], {}
+    for t, cls in tags.items():
+        stats[cls] = stats.get(cls, 0) + 1
+        lists = [[t]]
+        if thorough:
+            lists += [[t, 'groceries'], ['x', t], [t, rng.choice(SPECIAL)], [rng.choice(SPECIAL).upper(), t]]
+        elif rng.random() < 0.25:
+            lists.append(rng.choice([[t, 'groceries'], ['Refund', t], [t, rng.choice(SPECIAL)]]))
+        for tl in lists:
+            for a in amounts:
+                b, c = others[len(cases) % 3]
+                cases.append({'op': 'classify', 'amount': float_bits(a), 'tags': tl, 'b': float_bits(b), 'c': float_bits(c),
+                              'ascii': False, 'class': 'unicode:' + cls})
+    stats['characters'] = {'case': sorted({ch for v in look['case'].values() for ch in v}),
+                           'compat_pool': sum(len(v) for v in look['compat'].values()),
+                           'differ_pool': len(look['differ']), 'unicode_versions': look['unicode']}
+    return cases, stats
+
+
+def with_lower_tables(cases, js):
+    """copies of the cases carrying what EACH language's own lower-casing returned for every tag of the case
+    (Python: str.lower called here; JavaScript: toLowerCase called by the node runner) - the two external functions
+    the Lean models are parametrised by."""
+    out = []
+    for c, j in zip(cases, js):
+        d = dict(c)
+        d['lower_py'] = [[t, t.lower()] for t in (c['tags'] or [])]
+        d['lower_js'] = j.get('lowered', [])
+        out.append(d)
+    return out
+
+
 def compare(cases, py, js, lean):
     """Returns (property_failures, translator_failures)."""
     prop_fail, tr_fail = [], []
@@ -121,7 +323,7 @@ def compare(cases, py, js, lean):
                 diffs.append((k, p[k], j[k]))
         if diffs:
             prop_fail.append({'case': c, 'python': p, 'javascript': j, 'differs_in': [d[0] for d in diffs]})
-        if lean is not None and c['ascii']:
+        if lean is not None:
             l = lean[i]
             for side, real in (('py', p), ('js', j)):
                 for k in l[side]:
@@ -148,7 +350,15 @@ def run(ctx):
         if lo['forbidden']:
             ctx.obligation('audit:forbidden-tokens', 'audit', False, error='; '.join(lo['forbidden']))
         ctx.notes['build_ok'] = not lo.get('build_failed', False)
-    cases = [json.loads(ctx.replay_case)] if getattr(ctx, 'replay_case', None) else grid(ctx, thorough)
+    ustats, look = None, None
+    if getattr(ctx, 'replay_case', None):
+        cases = [json.loads(ctx.replay_case)]
+    elif ctx.replay:
+        cases = grid(ctx, thorough)
+    else:
+        look = lookalikes()
+        ucases, ustats = unicode_stream(ctx, thorough, look)
+        cases = grid(ctx, thorough) + ucases
     if ctx.replay:
         rp = json.loads(common.read(ctx.replay))
         if 'case' in rp.get('counterexample', {}):
@@ -157,16 +367,37 @@ def run(ctx):
     js = node_side(cases)
     lean = None
     try:
-        lean = common.Driver().batch(cases)
+        # both generated models, each with the recorded images of ITS language's lower-casing function
+        lean = common.Driver().batch(with_lower_tables(cases, js))
     except Exception as e:  # driver unavailable: the translator validation obligation is broken
         ctx.obligation('driver', 'correspondence', False, error=str(e)[:500])
     prop_fail, tr_fail = compare(cases, py, js, lean)
+    # the hypothesis of the *_eq_of_specialAgree theorems, evaluated by the model on the real images
+    lower_differs = [c['tags'] for c, j in zip(cases, js)
+                     if any(t.lower() != lo for t, lo in j.get('lowered', []))]
+    hyp_false = [c['tags'] for c, l in zip(cases, lean or []) if l.get('special_agree') is False]
+    ctx.notes['lowercasing'] = {
+        'tag_lists_where_str_lower_and_toLowerCase_differ': len({json.dumps(t) for t in lower_differs}),
+        'example': lower_differs[0] if lower_differs else None,
+        'tag_lists_where_specialAgree_is_false': len({json.dumps(t) for t in hyp_false}),
+        'specialAgree_false_example': hyp_false[0] if hyp_false else None}
     ctx.cov['evaluations'] = len(cases) * (3 if lean is not None else 2)
     ctx.cov['distinct_nontrivial'] = len({(c['amount'], json.dumps(c['tags'])) for c in cases if nontrivial(c)})
     ctx.cov['rule'] = ('grid: amounts {±large, ±fraction, ±0, NaN, ±inf, denormal, random} × tag lists '
                        '{missing, empty, every subset of the special tags in several letter cases and orders, '
-                       'mixed with ordinary tags, non-ASCII look-alikes}; each case run on classification.py, on the '
-                       'JS block under node, and on both generated Lean models; non-trivial = has a special tag or amount not > 0')
+                       'mixed with ordinary tags, non-ASCII look-alikes}; PLUS the Unicode look-alike stream: the special words '
+                       'with each 1-3 letter piece replaced by every code point that some case mapping (Python lower/upper/'
+                       'casefold/title/swapcase, JavaScript toLowerCase/toUpperCase/toLocale*Case(tr,lt), round trips; class '
+                       '"case": all of them, singly and in pairs) or some NFKC/NFKD/accent-stripping form (class "compat": a '
+                       'ctx.rng sample in the quick tier, all in the thorough tier) sends to that piece, with code points whose '
+                       'lower/upper case differs between the Python and the node runtime (class "differ") and with white-space / '
+                       'invisible / combining characters attached (class "invisible"), alone and mixed with ordinary and special '
+                       'tags, × {negative, positive} amounts; the characters are found by scanning all of Unicode in both runtimes '
+                       'each run.  Each case run on classification.py, on the JS block under node, and on both generated Lean '
+                       'models (each with the recorded images of its own language\'s lower-casing function); '
+                       'non-trivial = has a special tag or amount not > 0')
+    if ustats is not None:
+        ctx.cov['unicode_stream'] = ustats
     ctx.cov['exhaustive'] = False
     ctx.cov['traces_validated_against_impl'] = len(cases)
     ctx.cov['programs'] = 2
@@ -183,7 +414,7 @@ def run(ctx):
                                          'broken_obligations': [o['name'] for o in ctx.broken()]})
     elif ctx.broken():
         # search with the thorough grid before giving up
-        big = grid(ctx, True)
+        big = grid(ctx, True) + unicode_stream(ctx, True, look)[0]
         pf, _ = compare(big, py_side(big), node_side(big), None)
         ctx.cov['evaluations'] += 2 * len(big)
         if pf:
@@ -196,5 +427,7 @@ def run(ctx):
                            'searched': f'{len(big)} grid cases on node vs Python without a difference'}, nofail=True)
     return ctx.finish(extra_trusted=[
         'py→Lean and js→Lean translators (harness/translate), validated each run against Python and node on the grid',
-        'str.lower (Python) and toLowerCase (JS) are one shared abstract function in the theorem; agreement sampled on non-ASCII tags',
+        'str.lower (Python) and toLowerCase (JS): one shared abstract function in the *_eq theorems, two separate functions '
+        'related by the decidable hypothesis specialAgree in the *_eq_of_specialAgree theorems; the hypothesis is evaluated by '
+        'the driver on the recorded images of both functions for every generated tag list (evidence: lowercasing)',
         'key renaming transferIn↔transfer_in, transferOut↔transfer_out'])
